@@ -123,9 +123,17 @@ def converterOf (name : String) : R (Symbol → String) :=
   | "empty" => pure (fun _ => "")
   | _ => throw s!"unknown converter {name}"
 
+/-- A converter that wraps ALL equations in one compound statement: the first code-carrying symbol opens the suite,
+    every other block continues it (so every line of those blocks starts with whitespace). -/
+def guardConverter (first : Option Symbol) (s : Symbol) : String :=
+  if some s == first then "if t >= 0:\n    " ++ (s.code.getD "").replace "\n" "\n    "
+  else "    " ++ (s.code.getD "").replace "\n" "\n    "
+
 def handleRenderBody (j : Json) : R String := do
-  let conv ← converterOf (← str j "converter")
-  pure (Json.mkObj [("ok", .str (renderBody conv (← parseSymbols j "symbols")))]).compress
+  let syms ← parseSymbols j "symbols"
+  let name ← str j "converter"
+  let conv ← if name == "guard" then pure (guardConverter (selected syms).head?) else converterOf name
+  pure (Json.mkObj [("ok", .str (renderBody conv syms))]).compress
 
 def handleIndent (j : Json) : R String := do
   pure (Json.mkObj [("ok", .str (indent8 (← str j "text")))]).compress
